@@ -1,7 +1,7 @@
 (* C16 — flat-integer interface of the arbitration model (stream arbitration).
    input :  16 (stream tag)  maxGlobal maxNode maxNs mmKind mmVal muKind muVal skipExpected
             P (ns node wl prio ptime ready forbid state)*P   W (replicas isJobKind)*W   J (pod time)*J
-            K (op a b)*K
+            K (op a b)*K      (op 10 = restart of the arbitrator)
    observable : per operation  (phase|-1 annotation waiting arbitrated)*J  verdict *)
 From Coq Require Import List ZArith Bool.
 From Verif Require Import Lib.Wire C16.ModelArb C16.SpecArb.
@@ -38,7 +38,7 @@ Definition dec_op (l : list Z) : op * list Z :=
       ((if k =? 1 then OAdd a else if k =? 2 then ORound a else if k =? 3 then OSetPhase a b
         else if k =? 4 then ODelete a else if k =? 5 then OSetReady a (zb b)
         else if k =? 6 then ODeletePod a else if k =? 7 then OFilter a
-        else if k =? 8 then OEvict a else if k =? 9 then OSetPodState a b else ONop), t)
+        else if k =? 8 then OEvict a else if k =? 9 then OSetPodState a b else if k =? 10 then ORestart else ONop), t)
   | _ => (ONop, [])
   end.
 
@@ -119,6 +119,7 @@ Fixpoint nontrivial_ops (c : cfg) (st : ast) (ops : list op) : bool :=
 Definition nontrivial_case (inp : list Z) : bool :=
   mine inp && let '(c, st, ops) := decode inp in nontrivial_ops c st ops.
 
+(* no known finding in this stream (the restart defect, formerly sig 2, is fixed in bc5a78a) *)
 Definition finding_sig (inp obs : list Z) : Z := 0.
 
 Require Extraction.
